@@ -386,6 +386,21 @@ impl<'a> Gen<'a> {
                 adjacent: false,
             }
         };
+        // one group in twelve breaks the rule that a group starts with a required named item
+        // (a choice, a hidden item or a constant in front): `check_invariants` is the judge of
+        // whether such a definition is in the corpus
+        let first = if self.r.chance(1, 12) {
+            match self.r.below(3) {
+                0 => {
+                    let other = self.named_leaf();
+                    Shape::Alt(vec![first, other])
+                }
+                1 => Shape::Wrap(W::Hide, Box::new(first)),
+                _ => Shape::Pure(3),
+            }
+        } else {
+            first
+        };
         let mut fields = vec![first];
         let extra = self.r.range(1, 3);
         let mut pos_started = false;
